@@ -66,11 +66,20 @@ def make_pool(rng):
         cut = sb[: rng.randrange(3, len(sb))]
         pool.append((f"S{tn}cut", tn, cut, None, None, True))
         pool.append((f"S{tn}cutw", tn, cut, None, None, False))
+    # the same stream through front-ends that keep no state of their own - or should not: captures with different link
+    # layers, hex text
+    from . import c15 as _c15
+
+    (cb2, _e, _i), (rb2, _e2, _i2) = g.pair(rng.choice(allcc), dict(sessions=0))
+    for link in ("eth", "ipv4", "raw"):
+        pc, _carried = _c15.pcap_render([cb2, rb2], rng, link=link)
+        pool.append((f"pcap-{link}", "CommandResponseStream", pc, None, None, True, "pcapng"))
+    pool.append(("hex", "CommandResponseStream", _c15.hex_render(cb2 + rb2, rng)[0], None, None, True, "hex"))
     # value-faulted variants of a pool message (boundary values just outside a field's set are often members of a
     # sibling interface type), strict and warn: verdicts must not depend on what was validated before
     from .. import cases as _cases
 
-    msgs = [it for it in pool if it[1] in ("Command", "Response") and it[5]]
+    msgs = [it for it in pool if it[1] in ("Command", "Response") and it[5] and len(it) == 6]
     if msgs:
         lab, t, b, cc, enc, _s = rng.choice(msgs)
         base = _cases.Case(t, b, cc, enc)
@@ -91,8 +100,13 @@ class Live:
         from tpmstream.io.binary import Binary
 
         self.item = item
-        _label, t, b, cc, enc, strict = item
+        _label, t, b, cc, enc, strict = item[:6]
+        front = item[6] if len(item) > 6 else None
         kw = dict(tpm_type=TR.type_by_name(t), buffer=b, abort_on_error=strict)
+        if front:
+            from . import c15
+
+            Binary = c15.front(front)
         if cc is not None:
             kw["command_code"] = TR.cc_obj(cc)
         if enc is not None:
@@ -192,8 +206,8 @@ def run_history(pool, ops, rec, first, sched_sig, classes):
                 rec.count("comparisons")
                 if why:
                     mech = "type-object" if "declared type object" in why else ("object" if "objects" in why else "events")
-                    rec.violation("history", mech, f"decode of {label} ({l.item[1]} {l.item[2].hex()[:80]} cc={l.item[3]} enc={l.item[4]} strict={l.item[5]}) differs from the first decode of the same arguments in this process: {why}\nschedule: {ops[:40]}",
-                                  dict(pool=[(a, t, b.hex(), cc, enc, s) for a, t, b, cc, enc, s in pool], ops=ops))
+                    rec.violation("history", mech, f"decode of {label} ({l.item[1]} {l.item[2].hex()[:80]} cc={l.item[3]} enc={l.item[4]} strict={l.item[5]}{' via ' + l.item[6] if len(l.item) > 6 else ''}) differs from the first decode of the same arguments in this process: {why}\nschedule: {ops[:40]}",
+                                  dict(pool=[(it[0], it[1], it[2].hex()) + tuple(it[3:]) for it in pool], ops=ops))
 
 
 def seq_ops(rng, n_items):
@@ -257,7 +271,7 @@ def fresh_process_reference(items, rec, last):
 
     for item in items:
         label = item[0]
-        arg = json.dumps([item[0], item[1], item[2].hex(), item[3], item[4], item[5]])
+        arg = json.dumps([item[0], item[1], item[2].hex()] + list(item[3:]))
         code = ("import sys, json; from vt.monitors import c12; it = json.loads(sys.argv[1]); it[2] = bytes.fromhex(it[2]); "
                 "print(json.dumps(c12.fresh_decode(it)))")
         r = subprocess.run([env.PYTHON, "-c", code, arg], capture_output=True, text=True, cwd=env.VERIF_ROOT, env=env.child_env(), timeout=120)
@@ -272,7 +286,7 @@ def fresh_process_reference(items, rec, last):
             i = next((i for i, (a, b) in enumerate(zip(ref[0], mine[0])) if a != b), None)
             what = f"event #{i}: fresh {ref[0][i]} vs here {mine[0][i]}" if i is not None else f"fresh: {len(ref[0])} events, {ref[1]}; here: {len(mine[0])} events, {mine[1]}"
             rec.violation("history-vs-fresh-process", "result-depends-on-history", f"decode of {label} ({item[1]} {item[2].hex()[:80]} cc={item[3]} enc={item[4]} strict={item[5]}) after this shard's history differs from the same decode in a fresh interpreter: {what}",
-                          dict(pool=[(item[0], item[1], item[2].hex(), item[3], item[4], item[5])], ops=[("fresh",)]))
+                          dict(pool=[(item[0], item[1], item[2].hex()) + tuple(item[3:])], ops=[("fresh",)]))
 
 
 def first_use_race(rng, rec, classes, n=8):
@@ -325,7 +339,7 @@ def run_shard(shard, rec):
     for p in range(shard["n_pools"]):
         pool = make_pool(rng)
         # labels are per pool
-        pool = [(f"p{p}:{a}", t, b, cc, enc, s) for a, t, b, cc, enc, s in pool]
+        pool = [(f"p{p}:{it[0]}",) + tuple(it[1:]) for it in pool]
         for mk in (seq_ops, interleaved_ops, interleaved_ops):
             ops = mk(rng, len(pool))
             sig = hashlib.sha1(repr(ops).encode()).hexdigest()[:12]
@@ -363,7 +377,7 @@ def run_shard(shard, rec):
                         why = differs(first[label], summ)
                         if why:
                             mech = "type-object" if "declared type object" in why else ("object" if "objects" in why else "events")
-                            rec.violation("history-threads", mech, f"thread {tid}: decode of {label} differs from the first decode: {why}", dict(pool=[(a, t, b.hex(), cc, enc, s) for a, t, b, cc, enc, s in pool], ops=[("threads",)]))
+                            rec.violation("history-threads", mech, f"thread {tid}: decode of {label} differs from the first decode: {why}", dict(pool=[(it[0], it[1], it[2].hex()) + tuple(it[3:]) for it in pool], ops=[("threads",)]))
                     else:
                         first[label] = summ
     first_use_race(rng, rec, classes)
@@ -389,7 +403,7 @@ def finish(m, tier):
 
 
 def replay(r, rec):
-    pool = [(a, t, bytes.fromhex(b), cc, enc, s) for a, t, b, cc, enc, s in r["pool"]]
+    pool = [(it[0], it[1], bytes.fromhex(it[2])) + tuple(it[3:]) for it in r["pool"]]
     ops = [tuple(o) for o in r["ops"]]
     if ops and ops[0][0] in ("threads", "class"):
         ops = seq_ops(random.Random(0), len(pool)) if pool else []
